@@ -645,6 +645,30 @@ func (e *specEnv) evalCall(n *ECall) sv {
 			return sv{implies(and(req...), and(ens...)), tBool}
 		}
 	}
+	// an axiom applied to arguments denotes its instance for those arguments (explicit
+	// instantiation of the leading quantifier)
+	for _, ax := range c.eng.specs.Axioms {
+		if ax.Name == n.Fun {
+			q, ok := ax.E.(*EQuant)
+			if !ok || !q.Forall {
+				specFail("axiom %s is not universally quantified", ax.Name)
+			}
+			as := args()
+			if len(as) != len(q.Vars) {
+				specFail("axiom %s has %d quantified variables", ax.Name, len(q.Vars))
+			}
+			ne := e.child()
+			for i, qv := range q.Vars {
+				ty := c.eng.resolveType(e.pkg, qv.Type)
+				a := as[i]
+				if isInterface(ty) && !isInterface(a.ty) && a.ty != types.Typ[types.UntypedNil] {
+					a = sv{c.box(a.ty, a.t), ty}
+				}
+				ne.vars[qv.Name] = sv{a.t, ty}
+			}
+			return ne.eval(q.Body)
+		}
+	}
 	sf := c.eng.specs.Funcs[n.Fun]
 	if sf == nil {
 		specFail("unknown spec function %q", n.Fun)
